@@ -1278,6 +1278,9 @@ namespace bloch::compiler {
                 return;
             if (!it->second.base.empty())
                 validateClass(it->second.base);
+            // a class is validated with its own type parameters in force, not with those of
+            // whichever class was recorded last
+            m_currentTypeParams = it->second.typeParams;
             validateOverrides(it->second);
             validateAbstractness(it->second);
             validated.insert(name);
